@@ -150,6 +150,18 @@ func TestVerif_C37_Sequential(t *testing.T) {
 			wallets[i] = c37GenWallet(t, "wallet")
 		}
 
+		// cross-kind twins: a wallet ID whose hex text equals the hex text of a
+		// DKG seed (a 64-digit seed). They are different events of different
+		// kinds and must never shadow one another.
+		twin := rapid.Bool().Draw(t, "crossKindTwin")
+		if twin {
+			x := c37GenHex(t, 64, "twinHex", true)
+			si := rapid.IntRange(0, nSeeds-1).Draw(t, "twinSeedSlot")
+			wi := rapid.IntRange(0, nWallets-1).Draw(t, "twinWalletSlot")
+			seeds[si] = c37SeedFromHex(x)
+			wallets[wi] = [32]byte(c37HashFromHex(x))
+		}
+
 		d := newDeduplicator()
 		var seenSeeds []*big.Int
 		var seenResults []c37Result
@@ -212,14 +224,14 @@ func TestVerif_C37_Sequential(t *testing.T) {
 					t.Fatalf("step %d: notifyWalletClosed(%x) = %v, the wallet was delivered before: %v; history: %v", i, w, got, dup, hist)
 				}
 				seenWallets = append(seenWallets, w)
-				hist = append(hist, fmt.Sprintf("closed(%x)=%v", w[:4], got))
+				hist = append(hist, fmt.Sprintf("closed(%x)=%v", w, got))
 				if dup {
 					repeats++
 				}
 			}
 		}
 		nt := repeats > 0 && len(kinds) >= 2
-		st.Case(nt, strings.Join(hist, " "), fmt.Sprintf("kinds:%d", len(kinds)), fmt.Sprintf("repeats:%s", c37Bucket(repeats)))
+		st.Case(nt, strings.Join(hist, " "), fmt.Sprintf("kinds:%d", len(kinds)), fmt.Sprintf("repeats:%s", c37Bucket(repeats)), fmt.Sprintf("cross-kind-twin:%v", twin))
 	})
 }
 
